@@ -140,3 +140,6 @@ Section Walk.
       + intros n' l' i' Hc. apply (Hfiles r n' l' i' Hin). rewrite Hnode. exact Hc.
   Qed.
 End Walk.
+
+Print Assumptions ul_walk_all.
+Print Assumptions ul_walk_fids_ok.
